@@ -174,30 +174,39 @@ func randLane(r *c.Rng, k laneKind) uint64 {
 
 // laneTuples produces the per-lane operand tuples for an operation whose parameters have the given kinds.
 // budget bounds the number of crossed core tuples kept (all are kept when full is set).
-func laneTuples(r *c.Rng, ks []laneKind, budget int, nrand int, exhaustive8 bool) [][]uint64 {
+func laneTuples(r *c.Rng, ks []laneKind, budget int, nrand int, exhaustive8 bool, extN int) [][]uint64 {
 	var out [][]uint64
 	n := len(ks)
-	if exhaustive8 {
-		all8 := true
-		for _, k := range ks {
-			if k.w != 8 || k.sparse {
-				all8 = false
+	// exhaustive operand sets for narrow lanes: all 8-bit values for unary operations and for value x shift count
+	// (always); all 8-bit pairs and all 16-bit values of unary operations when asked for (thorough tier)
+	plain := func(k laneKind, w int) bool { return k.w == w && k.lanes > 1 && !k.sparse }
+	switch {
+	case n == 1 && plain(ks[0], 8):
+		for a := 0; a < 256; a++ {
+			out = append(out, []uint64{uint64(a)})
+		}
+		return out
+	case n == 1 && plain(ks[0], 16) && exhaustive8:
+		for a := 0; a < 65536; a++ {
+			out = append(out, []uint64{uint64(a)})
+		}
+		return out
+	case n == 2 && plain(ks[0], 8) && ks[1].lanes == 1 && len(ks[1].set.ext) == 17: // i8x16 shifts: counts 0..16
+		for _, cnt := range append(append([]uint64{}, ks[1].set.ext...), ks[1].set.core...) {
+			for a := 0; a < 256; a += 16 {
+				for l := 0; l < 16; l++ { // one vector per (count, 16 consecutive values)
+					out = append(out, []uint64{uint64(a + l), cnt})
+				}
 			}
 		}
-		if all8 && n <= 2 {
-			if n == 1 {
-				for a := 0; a < 256; a++ {
-					out = append(out, []uint64{uint64(a)})
-				}
-			} else {
-				for a := 0; a < 256; a++ {
-					for b := 0; b < 256; b++ {
-						out = append(out, []uint64{uint64(a), uint64(b)})
-					}
-				}
+		return out
+	case n == 2 && plain(ks[0], 8) && plain(ks[1], 8) && exhaustive8:
+		for a := 0; a < 256; a++ {
+			for b := 0; b < 256; b++ {
+				out = append(out, []uint64{uint64(a), uint64(b)})
 			}
-			return out
 		}
+		return out
 	}
 	// crossed core sets
 	idx := make([]int, n)
@@ -231,7 +240,16 @@ func laneTuples(r *c.Rng, ks []laneKind, budget int, nrand int, exhaustive8 bool
 	out = append(out, cross...)
 	// every ext value in every position, partnered with a random pick
 	for i := range ks {
-		for _, v := range ks[i].set.ext {
+		ext := ks[i].set.ext
+		if extN > 0 && len(ext) > extN { // a seed-dependent sample of the extended boundary set
+			ext = append([]uint64{}, ext...)
+			for a := 0; a < extN; a++ {
+				b := a + r.Intn(len(ext)-a)
+				ext[a], ext[b] = ext[b], ext[a]
+			}
+			ext = ext[:extN]
+		}
+		for _, v := range ext {
 			t := make([]uint64, n)
 			for j := range t {
 				if j == i {
